@@ -448,6 +448,16 @@ pub fn trace_on() -> bool {
     *T.get_or_init(|| std::env::var("VERIF_TRACE").map(|v| v == "1").unwrap_or(false))
 }
 
+/// what the generators may know about the context under test: its address and the two EIDs it currently holds
+/// (so that packets can be addressed to it consistently, by physical address or by assigned EID)
+/// set by the coverage-guided explorer: perform the operations, print nothing
+pub static QUIET: std::sync::atomic::AtomicBool = std::sync::atomic::AtomicBool::new(false);
+pub static HINT: std::sync::atomic::AtomicU32 = std::sync::atomic::AtomicU32::new(0);
+pub fn hint() -> (u8, u8, u8) {
+    let h = HINT.load(std::sync::atomic::Ordering::Relaxed);
+    (h as u8, (h >> 8) as u8, (h >> 16) as u8)
+}
+
 pub struct Session<'c, 'm> {
     pub ctx: &'c mut MCTPSMBusContext<'m>,
     pub alt: &'c MCTPSMBusContext<'m>,
@@ -541,11 +551,15 @@ impl<'c, 'm> Session<'c, 'm> {
             }
         }
         self.log(&op, &obs);
+        let (er, es) = self.eids();
+        let a = HINT.load(std::sync::atomic::Ordering::Relaxed) & 0xFF;
+        HINT.store(a | (er as u32) << 8 | (es as u32) << 16, std::sync::atomic::Ordering::Relaxed);
         obs
     }
 
     fn log(&mut self, op: &Op, obs: &Obs) {
         self.nops += 1;
+        if QUIET.load(std::sync::atomic::Ordering::Relaxed) { return; }
         self.out.push_str(&fmt_op(op));
         let (er, es) = self.eids();
         let o = &mut self.out;
@@ -601,6 +615,7 @@ pub fn with_session<F: FnOnce(&mut Session)>(id: u64, stratum: &str, cfg: &Cfg, 
     }
     let mut twin = MCTPSMBusContext::new(cfg.addr, &cfg.msg_types, &vids);
     let mut s = Session { ctx: &mut ctx, alt: &alt, twin: &mut twin, twin_on: false, alt_on: true, out: String::new(), nops: 0, nvend: cfg.vendor_ids.len() };
+    HINT.store(cfg.addr as u32, std::sync::atomic::Ordering::Relaxed);
     let _ = writeln!(s.out, "C {} {}", id, stratum);
     let _ = write!(s.out, "G {} {} {}", cfg.addr, hex(&cfg.msg_types), cfg.vendor_ids.len());
     for (f, d, n) in &cfg.vendor_ids {
